@@ -121,7 +121,12 @@ def sound_sig(r, rej):
     forced = r["spec"]["sess"].get("downenc") is not None
     surv = survives_down(de, r["stats"].get("qtype_used"), relay)
     if forced:
-        return "forced-downenc:survives=%s" % surv
+        # (the configuration is part of the signature: a forced codec that is switched to untested on ANOTHER kind of path
+        #  or with another way of choosing the fragment size is a different failure)
+        frag = "given" if r["spec"]["sess"].get("fragsize") else "probed"
+        return "forced-downenc:%s:%s:survives=%s:acase=%s:a8=%s:apunct=%s:frag=%s" % (
+            de, r["stats"].get("qtype_used"), surv, "keep" if relay["acase"] == "keep" else "folds", relay["a8"],
+            relay["apunct"], frag)
     return "auto:down=%s:survives=%s:acase=%s:a8=%s:apunct=%s" % (de, surv, relay["acase"], relay["a8"], relay["apunct"])
 
 
